@@ -1,4 +1,4 @@
-(* requires: Tokenizer Parser Command Printer *)
+(* requires: Tokenizer Parser PlotQL Command Printer *)
 (* C17 probes on the extracted model: parse_cmd / parse_fix / parse_disp / parse_kind /
    parse_json / parse_print.  Rendering and AST decoding only; no parsing logic here. *)
 open Conv
@@ -66,7 +66,16 @@ let query (q : Parser.query) =
     (match q.Parser.q_bucket with None -> "~" | Some g -> gran g)
     (hol q.Parser.q_group) seq
 
-let command = function
+let rec command = function
+  | Command.CCompare qs -> "CMP " ^ Stdlib.String.concat " | " (Stdlib.List.map query qs)
+  | Command.CBatch cs -> Printf.sprintf "B%d %s" (Stdlib.List.length cs) (Stdlib.String.concat " | " (Stdlib.List.map command cs))
+  | Command.CDefine (et, v, fields) ->
+      (* a later duplicate key wins; fields are listed sorted, as the Rust side does with its HashMap *)
+      let tbl = Hashtbl.create 8 in
+      Stdlib.List.iter (fun (k, sp) -> Hashtbl.replace tbl (hs k) (match sp with
+        | Command.FPrim s -> hs s | Command.FEnum l -> hl l)) fields;
+      let fs = Stdlib.List.sort compare (Hashtbl.fold (fun k v acc -> (k ^ ":" ^ v) :: acc) tbl []) in
+      Printf.sprintf "D %s v=%s %s" (hs et) (match v with None -> "~" | Some n -> string_of_n n) (Stdlib.String.concat "," fs)
   | Command.CQuery q -> query q
   | Command.CReplay (et, ctx, since, tf, ret) ->
       Printf.sprintf "R et=%s ctx=%s since=%s tf=%s ret=%s" (ho et) (hs ctx) (ho since) (ho tf) (hol ret)
@@ -94,7 +103,6 @@ let presult = function
   | Command.PDomain -> "DOMAIN"
   | Command.PUnmodelled Command.UDefine -> "UNMODELLED define"
   | Command.PUnmodelled Command.UBatch -> "UNMODELLED batch"
-  | Command.PUnmodelled Command.UPlot -> "UNMODELLED plot"
 
 let kind_of_string = function
   | "Define" -> Command.KDefine | "Store" -> Command.KStore | "Query" -> Command.KQuery
@@ -209,6 +217,9 @@ let run (t : string list) : string =
   | ["parse_disp"; h] ->
       (match Command.parse_command_cur (bytes_of_hex h) with
        | Command.POk (Command.CStore (_, _, json)) -> "S " ^ hs json   (* JSON validity is decided in the comparison *)
+       | Command.POk (Command.CBatch cs as c) ->
+           (* a STORE inside the batch: the JSON validity of its payload is decided in the comparison *)
+           (if Command.dispatch_handled (Command.kind_of c) then "BRESP " else "BPANIC ") ^ command c
        | Command.POk c -> if Command.dispatch_handled (Command.kind_of c) then "RESP" else "PANIC"
        | Command.PErr -> "NOPARSE"
        | Command.PPanic _ -> "PANIC"
